@@ -26,6 +26,8 @@ def check(ctx):
         collector.rule_drain_keeps_live(ctx, c, "R6")
         spanrules.rule_fanout(ctx, c, "R7")
     spanrules.rule_drop_order(ctx, facts, "R3")
+    from .. import provrules
+    provrules.rule_config(ctx, facts, "R8")
     # R5
     n = 0
     for f in facts.fns.values():
